@@ -235,6 +235,14 @@ class ProgramGen:
     def gen_op(self, st: dict, ints: List[_Var]) -> None:
         d = self.d
         a = self.pick_var(ints)
+        if d.bool(0.15):
+            # operators whose right operand must stay a safe constant (no division by zero, bounded growth)
+            op = d.pick(["//", "%", "**", "<<", ">>"])
+            b = ["c", {"//": d.pick(["3", "7"]), "%": d.pick(["5", "9"]), "**": "2", "<<": d.pick(["1", "3"]), ">>": d.pick(["1", "2"])}[op]]
+            out = f"v{len(st['stmts'])}"
+            st["stmts"].append(dict(k="op", op=op, a=["v", a.name, []], b=b, out=[out]))
+            st["vars"].append(_Var(out, "int", stmt=len(st["stmts"]) - 1))
+            return
         op = d.pick(BIN_OPS)
         if d.bool(0.6):
             b: list = ["v", self.pick_var(ints).name, []]
